@@ -14,7 +14,7 @@ the same state).  `RecvGrid`: the receiver is empty or on the out grid anchored 
 every `SubMerge` (`subMerge_result_invariant`), so they hold for every accumulator column of
 `core.Group`.
 -/
-import ZenoModel.Lemmas.SubMergeSemGroup4
+import ZenoModel.Lemmas.SubMergeSemSpec2
 
 namespace Zeno.SubMergeSem
 open Zeno
@@ -135,9 +135,14 @@ theorem sem_subMergeAll {e : Ex} (hv : e.valid = true) (hp : e.noPtile = true) (
 /-! ## Stage 2: `core.Group` (`groupRows`)
 
 `gResOf/gAsOfOf/gUntilOf` are the resolution/asOf/until `groupRows` hands to `SubMerge`;
-`gSlice q` projects a scan row's key onto the query's GROUP BY dims; `colsOf init out k` are the
-columns of the output row with key `k`; `groupSrcs q metas rows k j` are column `j` (and the
-metadata) of the scan rows whose key slices to `k`, in scan order. -/
+`gSlice q` projects a scan row's key onto the query's GROUP BY dims; `groupCell … k i` is column
+`i` of the output row with key `k` (`colsOf` reads the row: `groupRows_row_cols`);
+`groupMembers q rows k` are the scan rows whose key slices to `k`, in scan order, and
+`groupSrcs q metas rows k j` their columns `j` (with the rows' metadata).  `GroupCell … kk i f j`
+bundles the side conditions (Lemmas/SubMergeSemGroup3.lean): no stride; `SMWindow` (from
+`planLocal`); `f` = `i`-th selected field, valid, no PERCENTILE, no SHIFT; the `j`-th scanned field
+has the same expression and is the one direct sub-merger; every scan row has a well-formed column
+`j` on the table grid. -/
 
 /-- `planLocal` establishes the resolution/window side conditions of `sem_subMerge` for the
     parameters `groupRows` passes (`res = k·tableRes`, bounds on the table grid, `asOf < until`);
@@ -163,7 +168,7 @@ theorem groupRows_keys_exact (cfg : TableCfg) (now : Int) (q : Query) (pl : Plan
       ∀ k, k ∈ (groupRows cfg now q pl inFields metas rows).1.map (·.key) ↔ ∃ r ∈ rows, gSlice q r.key = k :=
   groupRows_keys cfg now q pl inFields metas rows
 
-/-- … and `colsOf` reads the columns of that row -/
+/-- … and `colsOf` (hence `groupCell`) reads the columns of that row -/
 theorem groupRows_row_cols (init : List Sq) (out : List Row) (hnd : (out.map (·.key)).Nodup) (o : Row)
     (ho : o ∈ out) : colsOf init out o.key = o.cols :=
   colsOf_mem init out hnd o ho
@@ -173,62 +178,97 @@ theorem groupRows_row_cols (init : List Sq) (out : List Row) (hnd : (out.map (·
     dims (in scan order), of exactly the source periods of the bucket `(T − res, T]` inside the
     window — "fewer dims merges exactly the keys that agree on the kept dims"; outside the window
     it is empty. -/
-theorem sem_groupRows (cfg : TableCfg) (now : Int) (q : Query) (pl : Plan) (inFields : List Field)
-    (metas : List KeyMeta) (rows : List Row) (hstride : pl.strideSlice = 0) {kk : Nat}
-    (w : SMWindow (gResOf cfg pl) cfg.res kk (gAsOfOf cfg now pl) (gUntilOf cfg now pl))
-    (i : Nat) (f : Field) (hf : q.outFields[i]? = some f)
-    (hv : f.ex.valid = true) (hp : f.ex.noPtile = true) (hs : f.ex.shiftOf = 0)
-    (j : Nat) (inF : Field) (hin : inFields[j]? = some inF) (hex : inF.ex = f.ex)
-    (hone : OneHot (dedupInputs (inFields.map (·.ex)) (f.ex.subMergers (inFields.map (·.ex)))) j f.ex)
-    (hrows : ∀ r ∈ rows, j < r.cols.length ∧ SqOk cfg.res (r.cols.getD j none) ∧ SqWF f.ex (r.cols.getD j none))
-    (k : Key) (T : Int) (hT : (gUntilOf cfg now pl - T) % gResOf cfg pl = 0) :
-    ((colsOf (q.outFields.map (fun _ => (none : Sq))) (groupRows cfg now q pl inFields metas rows).1 k).getD i none).at
-        f.ex (gResOf cfg pl) T =
+theorem sem_groupRows {cfg : TableCfg} {now : Int} {q : Query} {pl : Plan} {inFields : List Field}
+    {rows : List Row} {kk i j : Nat} {f : Field} (H : GroupCell cfg now q pl inFields rows kk i f j)
+    (metas : List KeyMeta) (k : Key) (T : Int) (hT : (gUntilOf cfg now pl - T) % gResOf cfg pl = 0) :
+    (groupCell cfg now q pl inFields metas rows k i).at f.ex (gResOf cfg pl) T =
       if gAsOfOf cfg now pl < T ∧ T ≤ gUntilOf cfg now pl
       then mergeAllOnto f.ex cfg.res (groupSrcs q metas rows k j)
         (bucketTimes cfg.res kk (gAsOfOf cfg now pl) (gUntilOf cfg now pl) T) f.ex.empty
-      else f.ex.empty :=
-  sem_groupRows_lem cfg now q pl inFields metas rows hstride w i f hf hv hp hs j inF hin hex hone hrows k T hT
+      else f.ex.empty := by
+  obtain ⟨inF, hin, hex⟩ := H.inField
+  exact sem_groupRows_lem cfg now q pl inFields metas rows H.noStride H.window i f H.outField H.valid H.noPtile
+    H.noShift j inF hin hex H.oneHot H.scan k T hT
 
 /-- C07 at the level of the group operator: the cell column holds NOTHING for any period end
-    outside `(asOf, until]` (on the out grid or not), and lies on the out grid anchored at `until`. -/
-theorem groupRows_window_exact (cfg : TableCfg) (now : Int) (q : Query) (pl : Plan) (inFields : List Field)
-    (metas : List KeyMeta) (rows : List Row) (hstride : pl.strideSlice = 0) {kk : Nat}
-    (w : SMWindow (gResOf cfg pl) cfg.res kk (gAsOfOf cfg now pl) (gUntilOf cfg now pl))
-    (i : Nat) (f : Field) (hf : q.outFields[i]? = some f)
-    (hv : f.ex.valid = true) (hp : f.ex.noPtile = true) (hs : f.ex.shiftOf = 0)
-    (j : Nat) (inF : Field) (hin : inFields[j]? = some inF) (hex : inF.ex = f.ex)
-    (hone : OneHot (dedupInputs (inFields.map (·.ex)) (f.ex.subMergers (inFields.map (·.ex)))) j f.ex)
-    (hrows : ∀ r ∈ rows, j < r.cols.length ∧ SqOk cfg.res (r.cols.getD j none) ∧ SqWF f.ex (r.cols.getD j none))
-    (k : Key) (T : Int) (hout : ¬ (gAsOfOf cfg now pl < T ∧ T ≤ gUntilOf cfg now pl)) :
-    ((colsOf (q.outFields.map (fun _ => (none : Sq))) (groupRows cfg now q pl inFields metas rows).1 k).getD i none).at
-        f.ex (gResOf cfg pl) T = f.ex.empty :=
-  (groupRows_cell_inv cfg now q pl inFields metas rows hstride w i f hf hv hp hs j inF hin hex hone hrows k).2 T hout
+    outside `(asOf, until]` (on the out grid or not) -/
+theorem groupRows_window_exact {cfg : TableCfg} {now : Int} {q : Query} {pl : Plan} {inFields : List Field}
+    {rows : List Row} {kk i j : Nat} {f : Field} (H : GroupCell cfg now q pl inFields rows kk i f j)
+    (metas : List KeyMeta) (k : Key) (T : Int) (hout : ¬ (gAsOfOf cfg now pl < T ∧ T ≤ gUntilOf cfg now pl)) :
+    (groupCell cfg now q pl inFields metas rows k i).at f.ex (gResOf cfg pl) T = f.ex.empty := by
+  obtain ⟨inF, hin, hex⟩ := H.inField
+  exact (groupRows_cell_inv cfg now q pl inFields metas rows H.noStride H.window i f H.outField H.valid H.noPtile
+    H.noShift j inF hin hex H.oneHot H.scan k).2 T hout
 
-/-- STAGE 3 (store invariant as a hypothesis).  If every contributing stored state is the
-    accumulation of the raw points `pts src t` of its (key, period), the cell is the accumulation
-    of all raw points of the bucket: those of the scan rows that agree with `k` on the kept dims,
-    in the native periods of `(T − res, T]` inside the window — each point once. -/
-theorem sem_groupRows_points (x : Ext) (cfg : TableCfg) (now : Int) (q : Query) (pl : Plan)
-    (inFields : List Field) (metas : List KeyMeta) (rows : List Row) (hstride : pl.strideSlice = 0) {kk : Nat}
-    (w : SMWindow (gResOf cfg pl) cfg.res kk (gAsOfOf cfg now pl) (gUntilOf cfg now pl))
-    (i : Nat) (f : Field) (hf : q.outFields[i]? = some f)
-    (hv : f.ex.valid = true) (hp : f.ex.noPtile = true) (hs : f.ex.shiftOf = 0)
-    (j : Nat) (inF : Field) (hin : inFields[j]? = some inF) (hex : inF.ex = f.ex)
-    (hone : OneHot (dedupInputs (inFields.map (·.ex)) (f.ex.subMergers (inFields.map (·.ex)))) j f.ex)
-    (hrows : ∀ r ∈ rows, j < r.cols.length ∧ SqOk cfg.res (r.cols.getD j none) ∧ SqWF f.ex (r.cols.getD j none))
+/-- … read on raw points: if every contributing stored state is the accumulation of the raw
+    points `pts r t` of its (scan row, period), the cell is the accumulation of all raw points of
+    the bucket: those of the scan rows that agree with `k` on the kept dims, in the native periods
+    of `(T − res, T]` inside the window — each point once. -/
+theorem sem_groupRows_points (x : Ext) {cfg : TableCfg} {now : Int} {q : Query} {pl : Plan}
+    {inFields : List Field} {rows : List Row} {kk i j : Nat} {f : Field}
+    (H : GroupCell cfg now q pl inFields rows kk i f j) (metas : List KeyMeta)
+    (k : Key) (T : Int) (hT : (gUntilOf cfg now pl - T) % gResOf cfg pl = 0)
+    (hW : gAsOfOf cfg now pl < T ∧ T ≤ gUntilOf cfg now pl) (pts : Row → Int → List Pt)
+    (hstore : ∀ r ∈ groupMembers q rows k,
+      ∀ t ∈ bucketTimes cfg.res kk (gAsOfOf cfg now pl) (gUntilOf cfg now pl) T,
+        (r.cols.getD j none).at f.ex cfg.res t = f.ex.acc x (pts r t)) :
+    (groupCell cfg now q pl inFields metas rows k i).at f.ex (gResOf cfg pl) T =
+      f.ex.acc x (memberPoints pts (groupMembers q rows k)
+        (bucketTimes cfg.res kk (gAsOfOf cfg now pl) (gUntilOf cfg now pl) T)) := by
+  obtain ⟨inF, hin, hex⟩ := H.inField
+  exact sem_groupRows_points_lem x cfg now q pl inFields metas rows H.noStride H.window i f H.outField H.valid
+    H.noPtile H.noShift j inF hin hex H.oneHot H.scan k T hT hW pts hstore
+
+/-! ## Stage 3: the grouped cell is the raw-point spec's bucket accumulation
+
+`specQuery` (Model/QuerySpec.lean) is, definitionally, `specOut` around `specBucketPts`
+(`specQuery_is_specOut`): for the bucket `(k, T)` it accumulates every selected expression over
+`specBucketPts q A adj lo hi P k T` — the accepted, WHERE-passing rows `A` inside the window whose
+projected key is `k` and whose out period is `T`, in arrival order.  The store-side invariant
+("the stored state of (key, native period) is the accumulation of the accepted rows of that key
+and period", being proved separately) is the HYPOTHESIS `hstore`. -/
+
+/-- accumulation does not depend on the order of the points -/
+theorem acc_order_irrelevant (x : Ext) {e : Ex} (hv : e.valid = true) (hp : e.noPtile = true) {l1 l2 : List Pt}
+    (h : l1.Perm l2) : e.acc x l1 = e.acc x l2 :=
+  acc_perm x hv hp h
+
+/-- `specQuery` accumulates, for the bucket `(k, T)`, exactly `specBucketPts` (by `rfl`) -/
+theorem specQuery_is_specOut (x : Ext) (cfg : TableCfg) (dup : Bool) (ps : List RawPoint) (q : Query)
+    (metas : List KeyMeta) :
+    specQuery x cfg dup ps q metas =
+      match planLocal cfg (acceptedRows cfg dup ps).2 q with
+      | .error e => .error e
+      | .ok pl => .ok (specOut x cfg q metas (acceptedRows cfg dup ps).1 (acceptedRows cfg dup ps).2 pl) :=
+  specQuery_eq x cfg dup ps q metas
+
+/-- STAGE 3.  Given the store invariant `hstore` (state of scan row `r` at native period `t` =
+    accumulation of the accepted rows of `(r.key, t)`), one scan row per key (`hkeys`), a scan row
+    for every key that has an accepted row inside the window (`hcover`) and accepted rows on the
+    table's period grid (`hper`): the grouped cell `(k, field i, T)` IS the accumulation the spec
+    performs over the bucket `(k, T)`. -/
+theorem sem_groupRows_spec (x : Ext) {cfg : TableCfg} {now : Int} {q : Query} {pl : Plan}
+    {inFields : List Field} {rows : List Row} {kk i j : Nat} {f : Field}
+    (H : GroupCell cfg now q pl inFields rows kk i f j) (metas : List KeyMeta)
     (k : Key) (T : Int) (hT : (gUntilOf cfg now pl - T) % gResOf cfg pl = 0)
     (hW : gAsOfOf cfg now pl < T ∧ T ≤ gUntilOf cfg now pl)
-    (pts : Src → Int → List Pt)
-    (hstore : ∀ op ∈ groupSrcs q metas rows k j,
-      ∀ t ∈ bucketTimes cfg.res kk (gAsOfOf cfg now pl) (gUntilOf cfg now pl) T,
-        op.1.at f.ex cfg.res t = f.ex.acc x (pts op t)) :
-    ((colsOf (q.outFields.map (fun _ => (none : Sq))) (groupRows cfg now q pl inFields metas rows).1 k).getD i none).at
-        f.ex (gResOf cfg pl) T =
-      f.ex.acc x (srcPoints pts (groupSrcs q metas rows k j)
-        (bucketTimes cfg.res kk (gAsOfOf cfg now pl) (gUntilOf cfg now pl) T)) :=
-  sem_groupRows_points_lem x cfg now q pl inFields metas rows hstride w i f hf hv hp hs j inF hin hex hone hrows
-    k T hT hW pts hstore
+    (A : List AccRow) (adj : AccRow → Pt)
+    (hper : ∀ a ∈ A, a.period % cfg.res = 0) (hkeys : (rows.map (·.key)).Nodup)
+    (hcover : ∀ a ∈ A, gAsOfOf cfg now pl < a.period ∧ a.period ≤ gUntilOf cfg now pl → ∃ r ∈ rows, r.key = a.key)
+    (hstore : ∀ r ∈ rows, ∀ t, gAsOfOf cfg now pl < t ∧ t ≤ gUntilOf cfg now pl →
+      (r.cols.getD j none).at f.ex cfg.res t = f.ex.acc x (keyPeriodPts A adj r.key t)) :
+    (groupCell cfg now q pl inFields metas rows k i).at f.ex (gResOf cfg pl) T =
+      f.ex.acc x (specBucketPts q A adj (gAsOfOf cfg now pl) (gUntilOf cfg now pl) (gResOf cfg pl) k T) := by
+  obtain ⟨inF, hin, hex⟩ := H.inField
+  exact sem_groupRows_spec_lem x cfg now q pl inFields metas rows H.noStride H.window i f H.outField H.valid H.noPtile
+    H.noShift j inF hin hex H.oneHot H.scan k T hT hW A adj hper hkeys hcover hstore
+
+/-- for a selected expression without IF the spec's adjustment of the points (conditions evaluated
+    on the source key) is immaterial: the hypothesis `hstore` may equally be stated on the accepted
+    rows' own points -/
+theorem spec_bucket_conds_irrelevant (x : Ext) {e : Ex} (h : e.noIf = true) (metas : List KeyMeta)
+    (l : List AccRow) : e.acc x (l.map (specAdj metas)) = e.acc x (l.map (·.pt)) :=
+  acc_specAdj x h metas l
 
 /-! ## Non-vacuity: the hypotheses hold, and the statements say the right thing, on concrete data -/
 
@@ -297,17 +337,15 @@ example : (groupRows exCfg 2000 exQ exPl exCfg.fields [] exRows).1.map (fun r =>
      ([("x", "2")], some ⟨2000, [[.agg (some 4)], [.agg (some 12)], [.agg (some 16)]]⟩)] := by decide +kernel
 example : (groupSrcs exQ [] exRows [("x", "1")] 1).map (·.1) = [exColB 1, exColB 3] := by decide +kernel
 
-/-- the hypotheses of `sem_groupRows` hold together on this query (selected field 0 = table
-    field 1), so its conclusion is a statement about the cells computed above -/
+/-- the hypotheses of `sem_groupRows` (`GroupCell`) hold together on this query — selected field 0
+    (`b`) = table field 1 — so its conclusion is a statement about the cells computed above -/
 example (k : Key) (T : Int) (hT : (gUntilOf exCfg 2000 exPl - T) % gResOf exCfg exPl = 0) :
-    ((colsOf (exQ.outFields.map (fun _ => (none : Sq))) (groupRows exCfg 2000 exQ exPl exCfg.fields [] exRows).1 k).getD 0 none).at
-        exC (gResOf exCfg exPl) T =
+    (groupCell exCfg 2000 exQ exPl exCfg.fields [] exRows k 0).at exC (gResOf exCfg exPl) T =
       if gAsOfOf exCfg 2000 exPl < T ∧ T ≤ gUntilOf exCfg 2000 exPl
       then mergeAllOnto exC exCfg.res (groupSrcs exQ [] exRows k 1)
         (bucketTimes exCfg.res (gResOf exCfg exPl / exCfg.res).toNat (gAsOfOf exCfg 2000 exPl) (gUntilOf exCfg 2000 exPl) T)
         exC.empty
       else exC.empty := by
-  have w := planLocal_establishes_window exCfg 2000 exQ exPl (by rfl) (by decide) (by decide +kernel)
   have exDistinct : ∀ (i i' : Nat) (a b : Ex), i ≠ i' → (exCfg.fields.map (·.ex))[i]? = some a →
       (exCfg.fields.map (·.ex))[i']? = some b → a.sameStr b = false := by
     intro i i' a b hne h1 h2
@@ -315,14 +353,46 @@ example (k : Key) (T : Int) (hT : (gUntilOf exCfg 2000 exPl - T) % gResOf exCfg 
     have h2' : ([exE, exC] : List Ex)[i']? = some b := h2
     rcases i with _ | _ | i <;> rcases i' with _ | _ | i' <;>
       simp at h1' h2' hne <;> (try (obtain ⟨rfl, rfl⟩ := And.intro h1' h2'; decide))
-  refine sem_groupRows exCfg 2000 exQ exPl exCfg.fields [] exRows (by decide +kernel) w 0 ⟨"b", exC⟩ rfl
-    (by decide) (by decide) (by decide) 1 ⟨"b", exC⟩ rfl rfl
-    (direct_submerger_of_table_aggregate _ .count (.field "b") 1 rfl exDistinct) ?_ k T hT
-  intro r hr
-  simp [exRows] at hr
-  rcases hr with h | h | h <;> subst h <;>
-    refine ⟨by decide, ⟨by decide, by decide, by decide⟩, ?_⟩ <;>
-    (intro c hc; simp at hc; rcases hc with rfl | rfl | rfl | rfl | rfl | rfl <;> rfl)
+  have H : GroupCell exCfg 2000 exQ exPl exCfg.fields exRows (gResOf exCfg exPl / exCfg.res).toNat 0 ⟨"b", exC⟩ 1 := by
+    refine ⟨by decide +kernel,
+      planLocal_establishes_window exCfg 2000 exQ exPl (by rfl) (by decide) (by decide +kernel),
+      rfl, by decide, by decide, by decide, ⟨⟨"b", exC⟩, rfl, rfl⟩,
+      direct_submerger_of_table_aggregate _ .count (.field "b") 1 rfl exDistinct, ?_⟩
+    intro r hr
+    simp [exRows] at hr
+    rcases hr with h | h | h <;> subst h <;>
+      refine ⟨by decide, ⟨by decide, by decide, by decide⟩, ?_⟩ <;>
+      (intro c hc; simp at hc; rcases hc with rfl | rfl | rfl | rfl | rfl | rfl <;> rfl)
+  exact sem_groupRows H [] k T hT
+
+/-! stage 3 on concrete data: six accepted rows (the last one at native period 1950 ≤ ASOF), the
+    scan rows that hold their per-(key, period) accumulations, and the bucket (x=1, T=2000) -/
+
+def exPt : Pt := { vals := [("b", 1)] }
+def exA : List AccRow :=
+  [⟨[("x", "1"), ("y", "a")], 2000, exPt⟩, ⟨[("x", "1"), ("y", "b")], 1990, exPt⟩, ⟨[("x", "1"), ("y", "a")], 1990, exPt⟩,
+   ⟨[("x", "2"), ("y", "a")], 2000, exPt⟩, ⟨[("x", "1"), ("y", "a")], 1960, exPt⟩, ⟨[("x", "1"), ("y", "b")], 1950, exPt⟩]
+def exOne : List Cell := [.agg (some 1)]
+def exNone : List Cell := [.agg none]
+def exScan : List Row :=
+  [⟨[("x", "1"), ("y", "a")], [none, some ⟨2000, [exOne, exOne, exNone, exNone, exOne]⟩]⟩,
+   ⟨[("x", "1"), ("y", "b")], [none, some ⟨1990, [exOne, exNone, exNone, exNone, exOne]⟩]⟩,
+   ⟨[("x", "2"), ("y", "a")], [none, some ⟨2000, [exOne]⟩]⟩]
+
+example : (∀ a ∈ exA, a.period % exCfg.res = 0) ∧ (exScan.map (·.key)).Nodup ∧
+    (∀ a ∈ exA, 1950 < a.period ∧ a.period ≤ 2000 → ∃ r ∈ exScan, r.key = a.key) := by decide +kernel
+/-- the store invariant on the example, for every native period end of the window and beyond -/
+example : ∀ r ∈ exScan, ∀ t ∈ [1940, 1950, 1960, 1970, 1980, 1990, 2000, 2010],
+    (r.cols.getD 1 none).at exC 10 t = exC.acc default (keyPeriodPts exA (·.pt) r.key t) := by decide +kernel
+/-- both sides of `sem_groupRows_spec`: 3 rows in bucket (x=1, 2000), 1 in (x=1, 1960) — the row
+    at 1950 is outside the window — and 1 in (x=2, 2000) -/
+example : (specBucketPts exQ exA (·.pt) 1950 2000 20 [("x", "1")] 2000).length = 3 ∧
+    (specBucketPts exQ exA (·.pt) 1950 2000 20 [("x", "1")] 1960).length = 1 := by decide +kernel
+example :
+    (groupCell exCfg 2000 exQ exPl exCfg.fields [] exScan [("x", "1")] 0).at exC 20 2000 =
+      exC.acc default (specBucketPts exQ exA (·.pt) 1950 2000 20 [("x", "1")] 2000) ∧
+    (groupCell exCfg 2000 exQ exPl exCfg.fields [] exScan [("x", "1")] 0).at exC 20 1960 =
+      exC.acc default (specBucketPts exQ exA (·.pt) 1950 2000 20 [("x", "1")] 1960) := by decide +kernel
 
 end Zeno.SubMergeSem
 
@@ -352,23 +422,31 @@ theorem subMerge_whole_function {e : Ex} (hv : e.valid = true) (hp : e.noPtile =
 
 /-- C06, `core.Group` (= `SubMergeSem.sem_groupRows`): coarser period and fewer dims — the cell is
     the merge over exactly the keys that agree on the kept dims of exactly the bucket's periods -/
-theorem group_cell_is_bucket_merge (cfg : TableCfg) (now : Int) (q : Query) (pl : Plan) (inFields : List Field)
-    (metas : List KeyMeta) (rows : List Row) (hstride : pl.strideSlice = 0) {kk : Nat}
-    (w : SMWindow (gResOf cfg pl) cfg.res kk (gAsOfOf cfg now pl) (gUntilOf cfg now pl))
-    (i : Nat) (f : Field) (hf : q.outFields[i]? = some f)
-    (hv : f.ex.valid = true) (hp : f.ex.noPtile = true) (hs : f.ex.shiftOf = 0)
-    (j : Nat) (inF : Field) (hin : inFields[j]? = some inF) (hex : inF.ex = f.ex)
-    (hone : OneHot (dedupInputs (inFields.map (·.ex)) (f.ex.subMergers (inFields.map (·.ex)))) j f.ex)
-    (hrows : ∀ r ∈ rows, j < r.cols.length ∧ SqOk cfg.res (r.cols.getD j none) ∧ SqWF f.ex (r.cols.getD j none))
-    (k : Key) (T : Int) (hT : (gUntilOf cfg now pl - T) % gResOf cfg pl = 0) :
-    ((colsOf (q.outFields.map (fun _ => (none : Sq))) (groupRows cfg now q pl inFields metas rows).1 k).getD i none).at
-        f.ex (gResOf cfg pl) T =
+theorem group_cell_is_bucket_merge {cfg : TableCfg} {now : Int} {q : Query} {pl : Plan} {inFields : List Field}
+    {rows : List Row} {kk i j : Nat} {f : Field} (H : GroupCell cfg now q pl inFields rows kk i f j)
+    (metas : List KeyMeta) (k : Key) (T : Int) (hT : (gUntilOf cfg now pl - T) % gResOf cfg pl = 0) :
+    (groupCell cfg now q pl inFields metas rows k i).at f.ex (gResOf cfg pl) T =
       if gAsOfOf cfg now pl < T ∧ T ≤ gUntilOf cfg now pl
       then mergeAllOnto f.ex cfg.res (groupSrcs q metas rows k j)
         (bucketTimes cfg.res kk (gAsOfOf cfg now pl) (gUntilOf cfg now pl) T) f.ex.empty
       else f.ex.empty :=
-  Zeno.SubMergeSem.sem_groupRows cfg now q pl inFields metas rows hstride w i f hf hv hp hs j inF hin hex hone hrows
-    k T hT
+  Zeno.SubMergeSem.sem_groupRows H metas k T hT
+
+/-- C06, against the raw-point spec (= `SubMergeSem.sem_groupRows_spec`): given the store invariant,
+    the grouped cell is the accumulation `specQuery` performs over the bucket -/
+theorem group_cell_is_spec_bucket (x : Ext) {cfg : TableCfg} {now : Int} {q : Query} {pl : Plan}
+    {inFields : List Field} {rows : List Row} {kk i j : Nat} {f : Field}
+    (H : GroupCell cfg now q pl inFields rows kk i f j) (metas : List KeyMeta)
+    (k : Key) (T : Int) (hT : (gUntilOf cfg now pl - T) % gResOf cfg pl = 0)
+    (hW : gAsOfOf cfg now pl < T ∧ T ≤ gUntilOf cfg now pl)
+    (A : List AccRow) (adj : AccRow → Pt)
+    (hper : ∀ a ∈ A, a.period % cfg.res = 0) (hkeys : (rows.map (·.key)).Nodup)
+    (hcover : ∀ a ∈ A, gAsOfOf cfg now pl < a.period ∧ a.period ≤ gUntilOf cfg now pl → ∃ r ∈ rows, r.key = a.key)
+    (hstore : ∀ r ∈ rows, ∀ t, gAsOfOf cfg now pl < t ∧ t ≤ gUntilOf cfg now pl →
+      (r.cols.getD j none).at f.ex cfg.res t = f.ex.acc x (keyPeriodPts A adj r.key t)) :
+    (groupCell cfg now q pl inFields metas rows k i).at f.ex (gResOf cfg pl) T =
+      f.ex.acc x (specBucketPts q A adj (gAsOfOf cfg now pl) (gUntilOf cfg now pl) (gResOf cfg pl) k T) :=
+  Zeno.SubMergeSem.sem_groupRows_spec x H metas k T hT hW A adj hper hkeys hcover hstore
 
 end Zeno.C06
 
@@ -376,18 +454,10 @@ namespace Zeno.C07
 open Zeno
 
 /-- C07, `core.Group` (= `SubMergeSem.groupRows_window_exact`): nothing outside `(asOf, until]` -/
-theorem group_window_exact (cfg : TableCfg) (now : Int) (q : Query) (pl : Plan) (inFields : List Field)
-    (metas : List KeyMeta) (rows : List Row) (hstride : pl.strideSlice = 0) {kk : Nat}
-    (w : SMWindow (gResOf cfg pl) cfg.res kk (gAsOfOf cfg now pl) (gUntilOf cfg now pl))
-    (i : Nat) (f : Field) (hf : q.outFields[i]? = some f)
-    (hv : f.ex.valid = true) (hp : f.ex.noPtile = true) (hs : f.ex.shiftOf = 0)
-    (j : Nat) (inF : Field) (hin : inFields[j]? = some inF) (hex : inF.ex = f.ex)
-    (hone : OneHot (dedupInputs (inFields.map (·.ex)) (f.ex.subMergers (inFields.map (·.ex)))) j f.ex)
-    (hrows : ∀ r ∈ rows, j < r.cols.length ∧ SqOk cfg.res (r.cols.getD j none) ∧ SqWF f.ex (r.cols.getD j none))
-    (k : Key) (T : Int) (hout : ¬ (gAsOfOf cfg now pl < T ∧ T ≤ gUntilOf cfg now pl)) :
-    ((colsOf (q.outFields.map (fun _ => (none : Sq))) (groupRows cfg now q pl inFields metas rows).1 k).getD i none).at
-        f.ex (gResOf cfg pl) T = f.ex.empty :=
-  Zeno.SubMergeSem.groupRows_window_exact cfg now q pl inFields metas rows hstride w i f hf hv hp hs j inF hin hex hone
-    hrows k T hout
+theorem group_window_exact {cfg : TableCfg} {now : Int} {q : Query} {pl : Plan} {inFields : List Field}
+    {rows : List Row} {kk i j : Nat} {f : Field} (H : GroupCell cfg now q pl inFields rows kk i f j)
+    (metas : List KeyMeta) (k : Key) (T : Int) (hout : ¬ (gAsOfOf cfg now pl < T ∧ T ≤ gUntilOf cfg now pl)) :
+    (groupCell cfg now q pl inFields metas rows k i).at f.ex (gResOf cfg pl) T = f.ex.empty :=
+  Zeno.SubMergeSem.groupRows_window_exact H metas k T hout
 
 end Zeno.C07
